@@ -297,7 +297,7 @@ class Loops(object):
             fr.loop_ghosts = dict(getattr(fr, 'loop_ghosts', None) or {}, **g)
             if spec.post is not None:
                 check_post(g)
-                raise PathEnd()
+                self._end_path(ctx, fname, node)
             I.exec_block(ctx, fr, node.orelse)
             return
 
@@ -412,7 +412,7 @@ class Loops(object):
             ctx.loop_guard.pop()
             if spec.post is not None:
                 check_post(g)
-                raise PathEnd()
+                self._end_path(ctx, fname, node)
             return      # the ghosts of the interrupted iteration stay visible (which element answered)
         except (ReturnSig, RaiseSig):
             ctx.loop_guard.pop()
@@ -425,6 +425,13 @@ class Loops(object):
                 raise Unsupported('loop body writes attribute %r of an opaque object; list it in '
                                   'havoc_attrs' % k, node)
         check_inv('preserve', g2)
+        self._end_path(ctx, fname, node)
+
+    def _end_path(self, ctx, fname, node):
+        # a path that ends at a cut point still owes the frame obligation for its stores
+        cur = self.engine.current
+        if cur is not None and cur.frame is not None:
+            self.engine._frame_exit(ctx, cur, fname, node)
         raise PathEnd()
 
     def _havoc_ref(self, I, ctx, ref, t, expr):
